@@ -235,7 +235,7 @@ class RealRouter:
         return {'k': 'ok', 'h': meth.handler.hid, 'route': s2l(meth.route.pattern), 'params': [[n, val_text(v)] for n, v in sorted(params.items())],
                 'hooks': [[pos, self.proj.hook_pat.get(id(hk[0]), [-1])] for pos, hk in hooks if hk and hk[0] is not None]}
 
-    def call(self, path, verb, accept=None):
+    def call(self, path, verb, accept=None, forwarded_from=None):
         """End to end through Ombott.__call__: (status, Allow header, handler id, kwargs, hooks fired)."""
         from harness.checks.bodylib import base_environ, call_app
         from urllib.parse import quote
@@ -245,6 +245,15 @@ class RealRouter:
         env = base_environ(REQUEST_METHOD=verb, PATH_INFO=p.encode('utf8').decode('latin1'))
         if accept:
             env['HTTP_ACCEPT'] = accept        # the representation of the error page must not change status or Allow
+        if forwarded_from and forwarded_from != verb and all(c < 128 for c in path):      # (a processed environ holds the DECODED path: ASCII only)
+            # the environ has been through the application once under another verb (an internal forward / sub-request that
+            # re-dispatches dict(environ, REQUEST_METHOD=...)): the answer depends on the verb it carries NOW
+            env0 = dict(env, REQUEST_METHOD=forwarded_from)
+            call_app(self.app, env0)
+            env = dict(env0, REQUEST_METHOD=verb)
+            env['wsgi.input'] = __import__('io').BytesIO(b'')
+            self.got.clear()
+            del self.fired[:]
         status, line, headers, body, nsr = call_app(self.app, env)
         allow = [v for k, v in headers if k == 'Allow']
         return {'status': status, 'allow': allow[0] if allow else None, 'h': self.got.get('h'),
